@@ -158,7 +158,7 @@ func mutationsOf(b byte, thorough bool) []byte {
 	}
 	set := map[byte]bool{}
 	var out []byte
-	for _, x := range []byte{0x00, 0x01, 0x7f, 0x80, 0xff, b ^ 0x01, b ^ 0x80, b + 1, b - 1} {
+	for _, x := range []byte{0x00, 0x01, 0x7f, 0x80, 0xff, b ^ 0x01, b ^ 0x80, b + 1, b - 1, ' ', '\n', '/', '@'} {
 		if x != b && !set[x] {
 			set[x] = true
 			out = append(out, x)
@@ -330,6 +330,8 @@ type holder2 struct {
 	P *int32
 }
 
+type namedArr [2]byte
+
 func unsupported() *venum.Check {
 	return &venum.Check{Name: "encode/unsupported-values", Family: "encode", Run: func(c *venum.Ctx) {
 		var nilPtr *int32
@@ -347,6 +349,10 @@ func unsupported() *venum.Check {
 			{"map[string]int", map[string]int{"a": 1}, true}, {"unsafe.Pointer", unsafe.Pointer(&i32), true},
 			{"nil *int32", nilPtr, true}, {"[]int", []int{1, 2}, true}, {"[]any{nil}", []any{nil}, true},
 			{"struct holding int", holder{1, 2}, true}, {"struct holding nil pointer", holder2{}, true}, {"*struct holding int", &holder{1, 2}, true},
+			{"[4]byte by value", [4]byte{1, 2, 3, 4}, false}, {"[0]byte", [0]byte{}, false}, {"named byte array", namedArr{9, 8}, false},
+			{"struct holding a byte array", struct{ A [2]byte }{[2]byte{1, 2}}, false}, {"[][2]uint8", [][2]uint8{{1, 2}, {3, 4}}, false},
+			{"[2][2]byte", [2][2]byte{{1, 2}, {3, 4}}, false}, {"*[3]byte", &[3]byte{1, 2, 3}, false}, {"[]byte inside struct", struct{ B []byte }{[]byte{1}}, false},
+			{"[2]string", [2]string{"a", ""}, false}, {"[2]bool", [2]bool{true, false}, false},
 			{"named uint8", named8(7), false}, {"named string", namedS("x"), false}, {"**int32", ppp, false}, {"[]named uint8", []named8{1, 2}, false},
 		}
 		for _, tc := range vals {
